@@ -23,7 +23,7 @@ RULE = ("v4 vectors built from own tables; a case is one accepted vector string;
         "15,116,544 effective assignments.")
 
 
-def check_vector(P, vec, variants=False):
+def check_vector(P, vec, variants=False, channels=False):
     L = lib()
     P.evaluations += 1
     ok, o = obs.call(L.CVSS4, vec)
@@ -51,6 +51,8 @@ def check_vector(P, vec, variants=False):
     elif not (isinstance(sc, tuple) and len(sc) == 1 and type(sc[0]) is float and sc[0] == got):
         P.violation("attr-vs-scores", "C02:scores-differs-from-base_score", {"vector": vec}, observed=repr(sc),
                     base_score=repr(got))
+    if channels or P.evaluations % 5 == 0:
+        obs.check_score_channels(P, "C02", o, vec, (got,))
     if "mv" in d:
         P.addset("macrovectors", [d["mv"]])
         pre = d["pre"] * 10 - ref4.F(1, 2)
@@ -86,7 +88,7 @@ def check_case(P, case):
     if "spellings" in case:
         check_fd(P, case["spellings"])
     else:
-        check_vector(P, case["vector"], variants=True)
+        check_vector(P, case["vector"], variants=True, channels=True)
 
 
 def random_spelling(rng, eff):
